@@ -14,7 +14,7 @@ import (
 
 func init() {
 	Register("C20", &Oracle{
-		Rule: "(A) describe.VerifMaskNumber / VerifMaskName on every string of length 0..7 over {'1','a',' ','é','*','-'} and on random strings up to 35 characters over printable ASCII + Latin-1 letters. " +
+		Rule: "(A) describe.VerifMaskNumber / VerifMaskName on every string of length 0..7 (thorough: 0..8) over {'1','a',' ','é','*','-'} and on random strings up to 35 characters over printable ASCII + Latin-1 letters. " +
 			"(B) generator files of every SEC except ADV (ADV entries are not described), incl. IAT (account number, sometimes with an Addenda98), COR (Addenda98 CorrectedData), ENR and DNE (well-formed payment information whose components use disjoint alphabets); " +
 			"every protected field is overwritten after Create by a random marker whose (length 1..field width, style) is enumerated systematically per kind of field: styles digits / alphanumeric / embedded blanks / 1, 2, 3 leading blanks / Latin-1 multi-byte / trailing blanks / punctuation " +
 			"(no '*' in file-level markers, ENR names ASCII); describe.File is run with all 8 combinations of MaskAccountNumbers/MaskNames/MaskCorrectedData (all three = the CLI's -mask). " +
@@ -73,6 +73,9 @@ func directOne(t *T, s, class string) {
 func direct(t *T) {
 	alpha := []string{"1", "a", " ", "é", "*", "-"}
 	maxLen := 7
+	if t.Tier == "thorough" {
+		maxLen = 8
+	}
 	var rec func(prefix string, n int)
 	rec = func(prefix string, n int) {
 		directOne(t, prefix, fmt.Sprintf("direct-exhaustive len=%d", n))
@@ -93,7 +96,7 @@ func direct(t *T) {
 	for c := rune(0xC0); c <= 0xFF; c++ {
 		pool = append(pool, c)
 	}
-	n := t.Budget(20000)
+	n := t.Budget(50000)
 	for i := 0; i < n; i++ {
 		l := r.Range(1, 35)
 		rs := make([]rune, l)
@@ -166,7 +169,7 @@ var (
 	// ENR payment information "22*12200004*3*<account>*<identification>*<surname>*<first>*<code>\": the fixed parts use 0-4, A, B
 	alphaENRAcct  = alphabet{"56", "CDEFGH", "-.", []rune("éèê")}
 	alphaENRIdent = alphabet{"789", "JKLMN", "#/", []rune("üûù")}
-	alphaSurname  = alphabet{"", "abcdefghijklm", "", nil}
+	alphaSurname  = alphabet{"", "acdefghijklm", "", nil} // no 'b': the classification code may be "b"
 	alphaFirst    = alphabet{"", "nopqrstuvwxyz", "", nil}
 	// DNE "DATE OF DEATH*010100*CUSTOMER SSN*<ssn>*AMOUNT*1.00\"
 	alphaSSN = alphabet{"23456789", "BGIJKLPQVWXYZ" + lower, "-#/", latin}
@@ -290,7 +293,13 @@ type counters map[string]int
 func (c counters) next(site string, width, styles int) (l, style int) {
 	n := c[site]
 	c[site] = n + 1
-	return 1 + (n/styles)%width, n % styles
+	// lengths from both ends inwards (1, width, 2, width-1, ...) so that the shortest and the
+	// longest values of every style come first
+	j := (n / styles) % width
+	if j%2 == 0 {
+		return 1 + j/2, n % styles
+	}
+	return width - j/2, n % styles
 }
 
 func secOf(i int) string {
@@ -315,7 +324,7 @@ func secOf(i int) string {
 }
 
 func files(t *T) {
-	n := t.Budget(320)
+	n := t.Budget(800)
 	cnt := counters{}
 	for i := 0; i < n; i++ {
 		r := t.R.Fork(uint64(i))
@@ -455,7 +464,7 @@ func plantENR(r *gen.Rand, a *ach.Addenda05, cnt counters, a05Idx int) []planted
 	n := cnt["enr-name"]
 	cnt["enr-name"] = n + 1
 	surname := nameMarker(r, 1+n%15, (n/15)%3, alphaSurname)
-	first := nameMarker(r, 1+(n/3)%7, (n/7)%2, alphaFirst)
+	first := nameMarker(r, 1+(n/2)%7, (n/14)%2, alphaFirst)
 	// a name component must not be blank only nor start/end with the separator; blanks inside are fine
 	code := []string{"A", "B", "0", "1", "b"}[n%5]
 	a.PaymentRelatedInformation = fmt.Sprintf(`22*12200004*3*%s*%s*%s*%s*%s\`, acct, ident, surname, first, code)
@@ -463,7 +472,7 @@ func plantENR(r *gen.Rand, a *ach.Addenda05, cnt counters, a05Idx int) []planted
 	if info, err := ach.ParseENRPaymentInformation(a); err == nil && info != nil {
 		name = info.IndividualName // as the tool sees it (business names are joined differently)
 	}
-	lowerOnly := func(b byte) bool { return b >= 'a' && b <= 'z' }
+	lowerOnly := func(b byte) bool { return b >= 'a' && b <= 'z' && b != 'b' }
 	return []planted{
 		{site: "enr-account-number", cls: clsAccount, value: acct, row: rowA05, idx: a05Idx, column: "PaymentRelatedInformation", keep: alphaENRAcct.keep()},
 		{site: "enr-identification", cls: clsAccount, value: ident, row: rowA05, idx: a05Idx, column: "PaymentRelatedInformation", keep: alphaENRIdent.keep()},
@@ -622,14 +631,16 @@ func checkNameIn(cell, value string, keep keepFn) *finding {
 		if runes(run) > 2 {
 			return &finding{"more-than-two-characters-shown", encoding(value), "at most the first two characters of a name word may appear"}
 		}
+		// (the business-name layout of ENRPaymentInformation.String may cut a word in two, so a run
+		// may also be the second character alone)
 		ok := false
 		for _, w := range words {
-			if strings.HasPrefix(w, run) {
+			if strings.Contains(firstTwo(w), run) {
 				ok = true
 			}
 		}
 		if !ok {
-			return &finding{"other-than-first-two-shown", encoding(value), "only the beginning of a name word may appear"}
+			return &finding{"other-than-first-two-shown", encoding(value), "only the first two characters of a name word may appear"}
 		}
 	}
 	return nil
